@@ -22,6 +22,9 @@ Definition out_eqb (a b : out) : bool :=
   | Denied c1, Denied c2 => lock_eqb c1 c2
   | TestOk, TestOk => true
   | Panicked, Panicked => true
+  | Inval, Inval => true
+  | DeniedNfs o1 l1 x1 w1, DeniedNfs o2 l2 x2 w2 =>
+    (o1 =? o2) && (l1 =? l2) && Bool.eqb x1 x2 && (w1 =? w2)
   | _, _ => false
   end.
 
@@ -108,7 +111,7 @@ Definition p_set (pre post : list lock) (q : lock) (x : out) : string :=
   | _ => "set-outcome"
   end%string.
 
-Definition p_step (pre post : list lock) (o : op) (x : out) : string :=
+Definition p_base (pre post : list lock) (o : op) (x : out) : string :=
   match o with
   | OLock ow ex s e =>
     let q := mkLock s e ow (ty_of ex) in
@@ -134,7 +137,53 @@ Definition p_step (pre post : list lock) (o : op) (x : out) : string :=
     | _ => "test-outcome"
     end
   | ORawSet ow t s e => p_set pre post (mkLock s e ow t) x
+  | _ => "not-a-table-op"
   end%string.
+
+(* Requests through OpenedFile carry (offset, length).  A rejected request
+   must leave the table alone; an accepted one must denote a non-empty
+   range and then behaves as the table request for [start, end).  A denial
+   is reported as (offset, length, type, owner) of a conflicting entry. *)
+Definition p_inval (pre post : list lock) (x : out) : string :=
+  match x with
+  | Inval => if unchanged pre post then "" else "inval-changed-state"
+  | _ => "inval-expected"
+  end%string.
+
+Definition p_nfs (pre post : list lock) (off len : N) (mk : N -> N -> op) (x : out) : string :=
+  match offset_length_to_start_end off len with
+  | None => p_inval pre post x
+  | Some (s, e) =>
+    if (e <=? s)%N then
+      match x with
+      | Inval => p_inval pre post x
+      | _ => "empty-range-accepted"
+      end
+    else
+      match x with
+      | Inval => "valid-range-rejected"
+      | Denied _ => "nfs-outcome"
+      | DeniedNfs _ _ _ _ =>
+        match mk s e with
+        | OLock ow ex _ _ | OTest ow ex _ _ =>
+          let q := mkLock s e ow (ty_of ex) in
+          if negb (existsb (fun c => conflicts c q && out_eqb (to_denied c) x) pre)
+          then "denied-without-conflict"
+          else if negb (unchanged pre post) then "denied-changed-state" else ""
+        | _ => "nfs-outcome"
+        end
+      | _ => p_base pre post (mk s e) x
+      end
+  end%string.
+
+Definition p_step (pre post : list lock) (o : op) (x : out) : string :=
+  match o with
+  | ONfsLock ow ex off len => p_nfs pre post off len (OLock ow ex) x
+  | ONfsUnlock ow off len => p_nfs pre post off len (OUnlock ow) x
+  | ONfsTest ow ex off len => p_nfs pre post off len (OTest ow ex) x
+  | OUnlockAll ow => p_base pre post (OUnlock ow 0 max_u64) x
+  | _ => p_base pre post o x
+  end.
 
 
 (* ---- P over a whole trace ------------------------------------------------ *)
@@ -150,13 +199,17 @@ Fixpoint trace_ok (l : list lock) (ops : list op) : bool :=
   end.
 
 (* Requests as the callers of the lock table produce them: non-empty
-   ranges (see [offset_length_to_start_end]). *)
-Definition op_range (o : op) : N * N :=
+   ranges.  [offset_length_to_start_end] guarantees that for all uint64
+   (offset, length) except (2^64-1, 2^64-1). *)
+Definition valid_op (o : op) : Prop :=
   match o with
-  | OLock _ _ s e | OUnlock _ s e | OTest _ _ s e | ORawSet _ _ s e => (s, e)
+  | OLock _ _ s e | OUnlock _ s e | OTest _ _ s e | ORawSet _ _ s e => s < e
+  | ONfsLock _ _ off len | ONfsUnlock _ off len | ONfsTest _ _ off len =>
+    (* uint64 arguments, and not the one pair that denotes the empty range
+       [2^64-1, 2^64-1) -- see offset_length_nonempty_refuted *)
+    off <= max_u64 /\ len <= max_u64 /\ ~ (off = max_u64 /\ len = max_u64)
+  | OUnlockAll _ => True
   end.
-
-Definition valid_op (o : op) : Prop := fst (op_range o) < snd (op_range o).
 Definition valid_ops (ops : list op) : Prop := Forall valid_op ops.
 
 (* Histories in which Set is only reached the way OpenedFile.Lock/Unlock
